@@ -467,19 +467,25 @@ class Repository:
         # Hashing
         hashing_settings = settings.get('hashing', {})
         hashing_settings.setdefault('name', self.DEFAULT_HASHER_NAME)
-        hasher_type, hasher_args = adapters.from_config(**hashing_settings)
+        hasher_type, hasher_args = adapters.from_config(
+            **hashing_settings, kind=adapters.HashAdapter
+        )
         config['hashing'] = dict(hasher_args, name=hasher_type.__name__)
 
         # Deduplication params
         chunking_settings = settings.get('chunking', {})
         chunking_settings.setdefault('name', self.DEFAULT_CHUNKER_NAME)
-        chunker_type, chunker_args = adapters.from_config(**chunking_settings)
+        chunker_type, chunker_args = adapters.from_config(
+            **chunking_settings, kind=adapters.ChunkerAdapter
+        )
         config['chunking'] = dict(chunker_args, name=chunker_type.__name__)
 
         if (encryption_settings := settings.get('encryption', {})) is not None:
             cipher_settings = encryption_settings.get('cipher', {})
             cipher_settings.setdefault('name', self.DEFAULT_CIPHER_NAME)
-            cipher_type, cipher_args = adapters.from_config(**cipher_settings)
+            cipher_type, cipher_args = adapters.from_config(
+                **cipher_settings, kind=adapters.CipherAdapter
+            )
             config['encryption'] = {
                 'cipher': dict(cipher_args, name=cipher_type.__name__)
             }
@@ -513,7 +519,7 @@ class Repository:
         user_kdf_settings = encryption_settings.get('kdf', {})
         user_kdf_settings.setdefault('name', self.DEFAULT_USER_KDF_NAME)
         user_kdf_type, user_kdf_args = adapters.from_config(
-            **user_kdf_settings, length=cipher.key_bytes
+            **user_kdf_settings, length=cipher.key_bytes, kind=adapters.KDFAdapter
         )
         user_kdf = user_kdf_type(**user_kdf_args)
 
